@@ -112,7 +112,7 @@ def main():
     left -= len(take)
   items = [dict(scn=all_dumps[k]["scn"], dump=all_dumps[k], seed=args.seed, interp=spec["interp"], tag="tlc") for k in chosen]
   # ---- random larger graphs (no prediction; judged by the predicates only)
-  nrand = 150 if args.tier == "quick" else 6000
+  nrand = 400 if args.tier == "quick" else 6000
   rand = [rgen.gen(args.seed * 1000003 + i, 3, 9 if args.tier == "thorough" else 7, nsub=1 if i % 5 else 2) for i in range(nrand)]
   # the specification's machine is run on them too (PipelineFrom.tla): design invariants + a predicted terminal state each
   rf, rdumps = pipecheck.design_run_from("%s_random" % prop, rand, spec["inv"], timeout=7200)
@@ -138,6 +138,11 @@ def main():
     for it in fitems:
       it["dump"] = fdumps.get(synth.scn_key({k: it["scn"][k] for k in ("subs", "mode", "inmode", "outmode")}))
     items += fitems
+  # a quarter of the synthesised models carry a second signature def (alias key) for subgraph 0
+  import zlib
+  for it in items:
+    if it.get("tag") in ("tlc", "random") and zlib.crc32(json.dumps(it["scn"].get("subs"), sort_keys=True).encode()) % 4 == 0:
+      it["scn"] = dict(it["scn"], sigalias=True)
   t0 = time.time()
   results = pipecheck.run_impl_many(items, args.procs)
   for it, r in zip(items, results):
